@@ -585,9 +585,39 @@ func genEvil(t *rapid.T, used map[string]bool) string {
 	return p
 }
 
+// genHostPath builds a source path the link code might know how to turn into a URL: a code
+// host, one to four path elements, a file; a version may sit on any element (a module in a
+// sub-directory of its repository has it on a later one) or nowhere (a checkout in GOPATH/src,
+// a vendored copy); exactly one element carries text that means something in a URL or in HTML.
+func genHostPath(t *rapid.T, used map[string]bool) string {
+	host := rapid.SampledFrom([]string{"github.com", "golang.org/x", "gopkg.in", "go.uber.org", "gitlab.com", "bitbucket.org", "k8s.io", "google.golang.org", "example.com"}).Draw(t, "codeHost")
+	n := rapid.IntRange(1, 4).Draw(t, "hostElems")
+	var el []string
+	for i := 0; i < n; i++ {
+		el = append(el, rapid.SampledFrom([]string{"u", "r", "tools", "gopls", "yaml.v2", "pkg.v3", "net", "cmd", "go-yaml", "v2"}).Draw(t, "hostElem"))
+	}
+	el = append(el, rapid.SampledFrom([]string{"f.go", "decode.go", "x.s"}).Draw(t, "hostFile"))
+	at := rapid.IntRange(0, len(el)-1).Draw(t, "payloadAt")
+	pay := rapid.SampledFrom([]string{"?q=1#ls", "?tab=x#<b>", "#x", "?", "\"><b>", "'", "<i>", "%3f%23", " ", "&amp;"}).Draw(t, "urlPayload")
+	if rapid.Bool().Draw(t, "payloadInside") && len(el[at]) > 1 {
+		el[at] = el[at][:1] + pay + el[at][1:]
+	} else {
+		el[at] += pay
+	}
+	if v := rapid.IntRange(-1, len(el)-2).Draw(t, "versionAt"); v >= 0 {
+		el[v] += "@" + rapid.SampledFrom([]string{"v0.11.0", "v2.4.0", "v0.0.0-20200223170610-d5e6a3e2c0ae", "v2.0.0+incompatible", "v1.0.0-rc.1"}).Draw(t, "hostVersion")
+	}
+	p := rapid.SampledFrom([]string{"", "", "a/vendor/", "/home/u/go/pkg/mod/", "/home/u/go/src/"}).Draw(t, "hostPrefix") + host + "/" + strings.Join(el, "/")
+	used["path:"+p] = true
+	return p
+}
+
 func genEvilPath(t *rapid.T, used map[string]bool) string {
 	if oneIn(t, 3, "plainEvil") {
 		return genEvil(t, used)
+	}
+	if oneIn(t, 3, "hostPath") {
+		return genHostPath(t, used)
 	}
 	p := rapid.SampledFrom(evilPaths).Draw(t, "path")
 	if oneIn(t, 3, "pathPlusPayload") {
